@@ -38,6 +38,8 @@ type Opts struct {
 	Linear      bool // no forks
 	KVShare     int  // percentage of contract (key) transactions; 0 = default 40
 	BigDesc     int  // when > 0, transfers carry a description of about this many bytes (large blocks)
+	// SplitCoinbase: every fifth block's coinbase has further outputs after the award
+	SplitCoinbase bool
 }
 
 // DefaultOpts is the mix used by C01-style histories.
@@ -45,7 +47,7 @@ func DefaultOpts() Opts {
 	cfg := sn.DefaultConfig()
 	cfg.Quota = []string{"1000000", "1000000", "1000000", "1208925819614629174706176"}
 	return Opts{Cfg: cfg, MaxBlocks: 10, MaxDepth: 6, MaxChildren: 3, MaxTxs: 4, KV: true, Fees: true, Frozen: true,
-		Big: true, SharedTx: true}
+		Big: true, SharedTx: true, SplitCoinbase: true}
 }
 
 // BlockInfo is one node of the block tree.
@@ -69,6 +71,7 @@ type Tree struct {
 	RootTx *pb.Transaction // the genesis coinbase
 	nonce  int
 	ts     int64
+	sealed int
 }
 
 // Shape is a random-id-free description of the tree.
@@ -293,7 +296,19 @@ func (t *Tree) Seal(parent int, proposer int, txs []*pb.Transaction, kinds []str
 		return nil, err
 	}
 	t.ts += 10
+	// every fifth sealed block carries a coinbase of several outputs (the award first, as the
+	// award rule demands, then one or two more, one of them possibly zero): nodes accept that
+	// from any producer, so play / undo / totals / restart must handle it outside genesis too
+	t.sealed++
+	if t.Opts.SplitCoinbase && t.sealed%5 == 3 {
+		f.AwardExtra = []sn.Out{{To: sn.K((proposer + 1) % 4).Address, Amount: big.NewInt(int64(7 * t.sealed))}}
+		if t.sealed%10 == 3 {
+			f.AwardExtra = append(f.AwardExtra, sn.Out{To: sn.K((proposer + 2) % 4).Address, Amount: big.NewInt(0)},
+				sn.Out{To: sn.K(proposer).Address, Amount: big.NewInt(3)})
+		}
+	}
 	blk, err := f.FormatBlock(pb0.ID, pb0.Height+1, sn.K(proposer), t.ts, txs, true)
+	f.AwardExtra = nil
 	if err != nil {
 		f.Drop()
 		return nil, err
